@@ -117,6 +117,7 @@ local Lib		libFrArchive		(Archive, String);
 /* Functions for manipulating the library header. */
 local Lib		libNewHeader		(Lib);
 local Bool		libChkHeader		(Lib);
+local Bool		libChkExtent		(Lib);
 local Lib		libPutHeader		(Lib);
 
 /* Functions for manipulating library sections. */
@@ -772,6 +773,36 @@ libChkHeader(Lib lib)
 	return true;
 }
 
+/*
+ * Check the section table against the size of the file it was read from:
+ * the sections are contiguous, so the last one must end where the file ends
+ * (a library extracted from an archive: not beyond the end of the archive).
+ */
+local Bool
+libChkExtent(Lib lib)
+{
+	UShort	n = lib->hdr.numSect;
+	long	size;
+	Offset	end;
+
+	if (n == 0)
+		end = libHdrSize;
+	else
+		end = libIndexSect(lib, n-1).offset +
+		      libIndexSect(lib, n-1).length;
+
+	if (fseek(lib->file, 0L, SEEK_END) != 0) return true;
+	size = ftell(lib->file);
+	if (size < 0) return true;
+
+	if (lib->offset == 0 ? end != (Offset) size
+			     : lib->offset + end > (Offset) size) {
+		libError(lib, ALDOR_E_LibSectOffset);
+		return false;
+	}
+	return true;
+}
+
 local Lib
 libPutHeader(Lib lib)
 {
@@ -810,7 +841,11 @@ libGetHeader(Lib lib)
 	LIB_SEEK(lib, long0);
 	cc = libHdrSize;
 	s = strAlloc(cc);
-	FILE_GET_CHARS(lib->file, s, cc);
+	if (fread(s, BYTE_BYTES, cc, lib->file) != cc) {
+		/* Shorter than a header: e.g. left by an interrupted compile. */
+		libError(lib, ALDOR_E_LibSectOffset);
+		comsgFatal(NULL, ALDOR_F_CantOpen, libToStringStatic(lib));
+	}
 	buf = bufCapture(s, cc);
 
 	lib->hdr.magic = bufGetHInt(buf);
@@ -838,7 +873,7 @@ libGetHeader(Lib lib)
 	}
 
 	/* A file whose header does not check must not be used. */
-	if (!libChkHeader(lib))
+	if (!libChkHeader(lib) || !libChkExtent(lib))
 		comsgFatal(NULL, ALDOR_F_CantOpen, libToStringStatic(lib));
 	return lib;
 }
@@ -933,7 +968,10 @@ libGetSection(Lib lib, LibSectName name, Bool stat)
 		buf = bufCapture(s, cc);
 	}
 
-	FILE_GET_CHARS(lib->file, s, cc);
+	if (fread(s, BYTE_BYTES, cc, lib->file) != cc) {
+		libError(lib, ALDOR_E_LibSectOffset);
+		comsgFatal(NULL, ALDOR_F_CantOpen, libToStringStatic(lib));
+	}
 	bufStart(buf);
 	return buf;
 }
